@@ -268,21 +268,53 @@ def check_solver_state(prog: Program, rep, rule: str) -> None:
         for c in sites:
             f = find_func_for_node(prog, tc, c)
             p = parent(c)
-            local = isinstance(p, ast.Assign) and len(p.targets) == 1 and isinstance(p.targets[0], ast.Name)
-            escapes = False
-            if local:
-                nm = p.targets[0].id
+            # what matters is that the object does not outlive the call: built at import (module level, class body, default
+            # argument) or kept on the solver instance it is shared between shots; a local of any function is per-call; handed
+            # on otherwise (returned by a factory, kept on an object that is itself built per call) is not traced
+            in_default = f is not None and any(c is x for d_ in list(f.node.args.defaults) + [k for k in f.node.args.kw_defaults if k is not None]
+                                               for x in ast.walk(d_))
+            if f is None or in_default:
+                rep.fail(rule, tc.path, c.lineno, f.qualname if f else '<module>', f'escape:{cname}',
+                         f'{cname} is built once at import ({"a default argument" if in_default else "module / class level"}): '
+                         f'every call shares it')
+                continue
+            tgt = None
+            if isinstance(p, ast.Assign) and len(p.targets) == 1:
+                tgt = p.targets[0]
+            elif isinstance(p, ast.AnnAssign) and p.value is c:
+                tgt = p.target
+            me = f.positional[0] if f.cls is not None and f.positional else None
+            if isinstance(tgt, ast.Attribute) and isinstance(tgt.value, ast.Name) and tgt.value.id == me and f.cls is tcc:
+                rep.fail(rule, tc.path, c.lineno, f.qualname, f'escape:{cname}',
+                         f'{cname} is kept on the solver (`{norm(tgt)}`): it survives from one call into the next')
+                continue
+            escapes = None
+            if isinstance(tgt, ast.Name):
+                nm = tgt.id
+                escapes = False
                 for n in ast.walk(f.node):
                     if isinstance(n, ast.Return) and n.value is not None and nm in {x.id for x in ast.walk(n.value) if isinstance(x, ast.Name)}:
                         escapes = True
-                    if isinstance(n, ast.Assign) and isinstance(n.value, ast.Name) and n.value.id == nm \
-                            and any(isinstance(t, ast.Attribute) for t in n.targets):
-                        escapes = True
-            if f is integ and local and not escapes:
-                rep.ok(rule, tc.where(c), f'{cname} is a per-call local of _integrate')
+                    if isinstance(n, (ast.Assign, ast.AnnAssign)) and isinstance(n.value, ast.Name) and n.value.id == nm \
+                            and any(isinstance(t, ast.Attribute) for t in (n.targets if isinstance(n, ast.Assign) else [n.target])):
+                        t0 = (n.targets if isinstance(n, ast.Assign) else [n.target])[0]
+                        if isinstance(t0.value, ast.Name) and t0.value.id == me and f.cls is tcc:
+                            rep.fail(rule, tc.path, n.lineno, f.qualname, f'escape:{cname}',
+                                     f'{cname} is kept on the solver (`{norm(t0)}`): it survives from one call into the next')
+                            escapes = 'reported'
+                        else:
+                            escapes = escapes or True
+                    if isinstance(n, (ast.Global, ast.Nonlocal)) and nm in n.names:
+                        rep.fail(rule, tc.path, n.lineno, f.qualname, f'escape:{cname}',
+                                 f'{cname} is bound to the global `{nm}`: every call shares it')
+                        escapes = 'reported'
+            if escapes == 'reported':
+                continue
+            if escapes is False:
+                rep.ok(rule, tc.where(c), f'{cname} is a per-call local of {f.qualname}')
             else:
-                rep.fail(rule, tc.path, c.lineno, f.qualname if f else '<module>', f'escape:{cname}',
-                         f'{cname} is not a per-call local of _integrate (stored, returned or built elsewhere)')
+                rep.undecided(rule, tc.where(c), f'{cname} built in {f.qualname}',
+                              'handed on (returned, or kept on another object): its lifetime is that of the receiver, not traced')
     rep.extra['solver_attr_reads'] = n_reads
     rep.extra['per_shot_attributes'] = per_shot_names
 
